@@ -12,7 +12,8 @@ from .interp import BoundMethod, Ctx, ExcVal, FuncVal, Interp, PyExc
 
 
 class LoopSpec:
-    def __init__(self, inv, modifies=None, local_types=None, decreases=None, after_havoc=None, exec_for=None):
+    def __init__(self, inv, modifies=None, local_types=None, decreases=None, after_havoc=None, exec_for=None, gen_locals=None):
+        self.gen_locals = gen_locals or {}  # name -> fn(ip, value): the value of a loop-carried local after any number of iterations
         self._inv = inv
         self.modifies = set(modifies) if modifies is not None else None
         self.local_types = local_types or {}
@@ -250,6 +251,9 @@ class Unit:
 
     def on_cancellation_check(self, ip, kind):
         pass
+
+    def construct_exception(self, ip, pycls, args):
+        return NotImplemented
 
     def init_object(self, ip, info, ref):
         pass
